@@ -247,6 +247,18 @@ def sizeCandidatesLegacy (fs : FS) (root : Path) (ord inv : List Row) (max : Nat
   let total := totalSize inv
   if total < max then some [] else selectLoopLegacy (convert fs root) (total - max) ord
 
+/-- insert a row that has a smaller rowid than every row of the (sorted) list: it goes before the
+first row that is not strictly older -/
+def insertLRU (r : Row) : List Row → List Row
+  | [] => [r]
+  | x :: xs => if x.atime < r.atime then x :: insertLRU r xs else r :: x :: xs
+
+/-- the order SQLite produces: index on `(LastAccessTime, rowid)` = stable sort of the rowid order
+(insertion sort, so that the kernel can evaluate it) -/
+def sortLRU : List Row → List Row
+  | [] => []
+  | r :: rs => insertLRU r (sortLRU rs)
+
 def mapConv (conv : Row → Option (Row × Path)) : List Row → Option (List (Row × Path))
   | [] => some []
   | r :: rs =>
@@ -256,10 +268,14 @@ def mapConv (conv : Row → Option (Row × Path)) : List Row → Option (List (R
       | none => none
       | some l => some (c :: l)
 
-/-- `get_files_last_accessed_before`: every matching row is converted (`collect`) -/
+/-- `get_files_last_accessed_before` (file_inventory.rs:323-338): every matching row is converted
+(`collect`). The statement has no `ORDER BY`; SQLite answers `WHERE LastAccessTime < ?1` with a range
+scan of `idx_files_LastAccessTime`, so the rows arrive in `(LastAccessTime, rowid)` order — the same
+order as in the size pass (observable when one candidate lies below another one that is a regular file:
+`f/zz` before `f` ⇒ ENOTDIR, kept; found by the correspondence in the improvement round). -/
 def ageCandidates (fs : FS) (root : Path) (inv : List Row) (cutoff : Nat) :
     Option (List (Row × Path)) :=
-  mapConv (convert fs root) (inv.filter fun r => decide (r.atime < cutoff))
+  mapConv (convert fs root) ((sortLRU inv).filter fun r => decide (r.atime < cutoff))
 
 structure Attempt where
   row : Row
@@ -378,18 +394,6 @@ def sizePassLegacyPath (ord : List Row) (c : Cfg) (fs : FS) (inv : List Row) : E
     | some cs =>
       let t := deleteFilesLegacyPath c.root fs inv cs
       ⟨t.1, t.2.1, .ok, t.2.2⟩
-
-/-- insert a row that has a smaller rowid than every row of the (sorted) list: it goes before the
-first row that is not strictly older -/
-def insertLRU (r : Row) : List Row → List Row
-  | [] => [r]
-  | x :: xs => if x.atime < r.atime then x :: insertLRU r xs else r :: x :: xs
-
-/-- the order SQLite produces: index on `(LastAccessTime, rowid)` = stable sort of the rowid order
-(insertion sort, so that the kernel can evaluate it) -/
-def sortLRU : List Row → List Row
-  | [] => []
-  | r :: rs => insertLRU r (sortLRU rs)
 
 def evict (now : Nat) (c : Cfg) (fs : FS) (inv : List Row) : EvictRes :=
   evictCore (sortLRU inv) now c fs inv
